@@ -70,12 +70,13 @@ def proof_stage(pid, thorough=False):
         res['problems'].append(f'parameter extraction failed: {e}')
     # source -> Lean translators (regenerated on every run; the source-tie theorems are proved about their output)
     try:
-        import urgency2lean, sql2lean, server2lean, clap2lean, handlers2lean
+        import urgency2lean, sql2lean, server2lean, clap2lean, handlers2lean, inmemory2lean
         tr = {'urgency': urgency2lean.extract_and_write(os.path.join(LEAN, 'Tcs', 'Generated', 'UrgencySrc.lean')),
               'sql': sql2lean.extract_and_write(os.path.join(LEAN, 'Tcs', 'Generated', 'SqlSrc.lean')),
               'server': server2lean.extract_and_write(os.path.join(LEAN, 'Tcs', 'Generated', 'ServerSrc.lean')),
               'cli': clap2lean.extract_and_write(os.path.join(LEAN, 'Tcs', 'Generated', 'CliSrc.lean')),
-              'handlers': handlers2lean.extract_and_write(os.path.join(LEAN, 'Tcs', 'Generated', 'HandlerSrc.lean'))}
+              'handlers': handlers2lean.extract_and_write(os.path.join(LEAN, 'Tcs', 'Generated', 'HandlerSrc.lean')),
+              'mem': inmemory2lean.extract_and_write(os.path.join(LEAN, 'Tcs', 'Generated', 'MemSrc.lean'))}
         res['translated_source'] = tr
         if res['params'] is not None:
             res['params']['translated_source'] = tr
